@@ -398,6 +398,36 @@ func (r *Run) c17CodecPoolsAfterErrors() {
 	r.st.Evaluations++
 }
 
+// c17SharedOptionSlice: callers on several goroutines spread one option slice (length 1, capacity 8) into the packet
+// constructors, which may read it and must not write to it.
+func (r *Run) c17SharedOptionSlice() {
+	ctx := protocol.NewContext(context.Background(), protocol.ClientSide)
+	shared := make([]protocol.PacketOption, 1, 8)
+	shared[0] = protocol.WithVerify(1, []byte("0123456789abcdef"))
+	var wg sync.WaitGroup
+	for w := 0; w < 8; w++ {
+		wg.Add(1)
+		go func(w int) {
+			defer wg.Done()
+			for i := 0; i < 600; i++ {
+				switch i % 4 {
+				case 0:
+					protocol.NewRequest(ctx, 9, nil, shared...)
+				case 1:
+					protocol.MustNewRequest(ctx, 9, nil, shared...)
+				case 2:
+					protocol.NewResponse(ctx, 9, uint8(w), nil, shared...)
+				default:
+					protocol.MustNewResponse(ctx, 9, uint8(w), nil, shared...)
+				}
+			}
+		}(w)
+	}
+	wg.Wait()
+	r.st.Evaluations++
+	r.count("c17.codec.shared-option-slice")
+}
+
 func itoa(n int) string {
 	if n == 0 {
 		return "0"
@@ -418,7 +448,7 @@ func (r *Run) sub() *Run {
 func runC17(r *Run) {
 	installHooks()
 	hub.reset()
-	r.st.Rule = "binary built with -race: (1) mixed scenario on TCP and WebSocket - 8 callers of Do, 2 of AuthInfo, incoming responses, pushes and server heartbeats, keepalive ticks every 30 ms, connection loss + recovery (RECONNECT), server close packet, Close while callers are calling; (2) frames split across socket reads on one connection while 8 callers pack requests on another (shared codec pools); (3) bursts of 64 callers overflowing the WebSocket write queue; 8 callers with 2.5-3 KB bodies (gzip path, pooled compressors); (4) the scenario suites of the other client properties run once more under the detector (quick: C05, C14, C15; thorough: all). A report counts when both access stacks are inside the library."
+	r.st.Rule = "binary built with -race: (1) mixed scenario on TCP and WebSocket - 8 callers of Do, 2 of AuthInfo, incoming responses, pushes and server heartbeats, keepalive ticks every 30 ms, connection loss + recovery (RECONNECT), server close packet, Close while callers are calling; (2) frames split across socket reads on one connection while 8 callers pack requests on another (shared codec pools); (3) bursts of 64 callers overflowing the WebSocket write queue; 8 callers with 2.5-3 KB bodies (gzip path, pooled compressors); 8 callers of the packet constructors spreading one shared option slice with spare capacity; (4) the scenario suites of the other client properties run once more under the detector (quick: C05, C14, C15; thorough: all). A report counts when both access stacks are inside the library."
 	for _, trans := range []string{"tcp", "ws"} {
 		r.c17Mix(trans)
 	}
@@ -426,6 +456,7 @@ func runC17(r *Run) {
 	r.c17WsOverflow()
 	r.c17GzipBodies()
 	r.c17CodecPoolsAfterErrors()
+	r.c17SharedOptionSlice()
 	suites := map[string]func(*Run){"C05": runC05, "C14": runC14, "C15": runC15}
 	order := []string{"C05", "C14", "C15"}
 	if r.thorough() {
